@@ -8,6 +8,9 @@
       | addr*                                   addresses to report
    ->  F err | (bal eng)* | tadd tsub
    or  D gasUsed paid reward reverted nOutputs payer price credit|- | (gin used refund)* | (bal eng)* | tadd tsub
+   AD | <the TX sections> | blocklist minprio used (id reverted)* | oblk dblk featok tagok exp id dep|- chainhas chaindep(-|0|1)
+      packer Flow.Adopt in full (adopt_full) ->  R class | views | tadd tsub   or   A <as D> | used
+   DS T S benef deleg reward perc hasDelegations  ->  benefShare delegShare issued      (energy.DistributeRewards)
    BF galactica pnum gasLimit gasUsed parentBaseFee  ->  none | fee x | panic
    numbers are hex; the clause oracle given to the model is the lookup table of the observed results, effects = apply_ops. *)
 open Model
@@ -114,9 +117,25 @@ let handle line =
   match split_on "|" (split_ws line) with
   | [ "TX" ] :: rest -> handle_tx rest
   | [ "AD" ] :: rest -> handle_tx rest
+  | [ [ "DS"; t; s; benef; deleg; reward; perc; hd ] ] ->
+    (* energy.DistributeRewards on an empty ledger: the shares credited to the beneficiary and the delegator contract, issued *)
+    let l = distribute (z t) (z s) (ledger_of [] Z0 Z0 Z0) (z benef) (z deleg) (z reward) (z perc) (bool_of_tok hd) in
+    let e a = snd (view (z t) (z s) l (z a)) in
+    zs (e benef) ^ " " ^ zs (e deleg) ^ " " ^ zs l.l_issued
   | [ [ "BF"; gal; pnum; gl; gu; pb ] ] ->
     (match calc_base_fee (z gal) (z pnum) (z gl) (z gu) (z pb) with
      | BfNone -> "none" | BfFee x -> "fee " ^ zs x | BfPanics -> "panic")
   | _ -> failwith "bad line"
 
-let () = iter_lines handle
+(* like Wire.iter_lines, but flushing after every answer: the Adopt differential asks line by line (the next line depends on the answer) *)
+let () =
+  (try
+     while true do
+       let line = input_line stdin in
+       if String.trim line <> "" then begin
+         let out = (try handle line with e -> "ERR " ^ Printexc.to_string e) in
+         print_string out; print_char '\n'; flush stdout
+       end
+     done
+   with End_of_file -> ());
+  flush stdout
